@@ -342,15 +342,126 @@ def _constructor_agreement(ctx):
     ctx.ob("R31.4", "validator classes:constructor-agreement", not bad and n >= 24, f"every class the validator admits ({n} classes) is either a dataclass or a tree class whose exported public fields are constructor keywords (generated constructor: by the init flag; hand-written constructor: parameter names checked)", bad[:4], "fields == keywords")
 
 
+def _arrays(ctx):
+    """Edge arrays of an explicit grid (and arrays in general) come back entry by entry."""
+    from ..ndarr import NdArr
+
+    ix = ctx.index
+    it = _interp(ctx)
+    ov = it.ext_overrides
+
+    def allclose(it_, a, k):
+        x, y = a[0], a[1]
+        xs = [to_rat(v).const_value() for v in (x.data if isinstance(x, NdArr) else [x])]
+        ys = [to_rat(v).const_value() for v in (y.data if isinstance(y, NdArr) else [y])]
+        if len(ys) == 1:
+            ys = ys * len(xs)
+        rtol, atol = Fr(k.get("rtol", Fr(1, 10**5))), Fr(k.get("atol", Fr(1, 10**8)))
+        return all(abs(p - q) <= atol + rtol * abs(q) for p, q in zip(xs, ys))
+
+    def linspace(it_, a, k):
+        kw = dict(zip(("start", "stop", "num"), a))
+        kw.update(k)
+        n = int(to_rat(kw["num"]).const_value())
+        lo, hi = to_rat(kw["start"]).const_value(), to_rat(kw["stop"]).const_value()
+        return NdArr((n,), [lo + (hi - lo) * Fr(i, n - 1) for i in range(n)])
+
+    ov["np.allclose"] = allclose
+    ov["np.linspace"] = linspace
+    ov["np.asarray"] = lambda it_, a, k: a[0] if isinstance(a[0], NdArr) else NotImplemented
+    nm = Fr(1, 10**9)
+    widths = [28 * nm, 26 * nm, 24 * nm, 22 * nm, 20 * nm]  # graded, nanometre scale: differences far below numpy's default atol
+    z, acc = [Fr(0)], Fr(0)
+    for w in widths:
+        acc += w
+        z.append(acc)
+    cases = {
+        "graded edges (nm)": NdArr((len(z),), z),
+        "uniform edges": NdArr((5,), [Fr(-1, 2) + Fr(i, 4) for i in range(5)]),
+        "two entries": NdArr((2,), [Fr(0), Fr(3, 10**7)]),
+        "2-d": NdArr((2, 3), [Fr(i, 7) for i in range(6)]),
+    }
+    bad = []
+    for label, arr in cases.items():
+        try:
+            back = _roundtrip(ctx, it, {"a": arr})
+        except Raised as r:
+            bad.append((label, str(r)[:100]))
+            continue
+        got = back.get("a") if isinstance(back, dict) else None
+        if not (isinstance(got, NdArr) and got.shape == arr.shape and all(to_rat(x).equals(to_rat(y)) for x, y in zip(got.data, arr.data))):
+            first = next((i for i, (x, y) in enumerate(zip(getattr(got, "data", []), arr.data)) if not to_rat(x).equals(to_rat(y))), None)
+            bad.append((label, f"shape {getattr(got, 'shape', got)}; first differing entry {first}"))
+    ctx.ob("R31.5", "round-trip[arrays]", not bad, "arrays (the edge coordinates of an explicit grid: graded at the nanometre scale, uniform, two entries; a 2-d array) come back with the same shape and the same entries — no entry is recomputed from a summary of the array", bad, "entry-wise equal")
+    # an explicit grid inside a configuration
+    RG = ix.cls("fdtdx.core.grid.RectilinearGrid")
+
+    def hook(it_, callee, args, kwargs):
+        if isinstance(callee, ClassRef) and callee.ci is RG:
+            return Obj(RG, dict(kwargs), "grid")  # the derived attributes are functions of the edges (C37 / C38)
+        return NotImplemented
+
+    it.call_hooks.insert(0, hook)
+    grid = Obj(RG, dict(x_edges=cases["uniform edges"], y_edges=cases["uniform edges"], z_edges=cases["graded edges (nm)"]), "grid")
+    cfg = Obj(ix.cls("fdtdx.config.SimulationConfig"), dict(time=Fr(1), grid=grid, backend="cpu", dtype=ExtRef("jax.numpy.float32"), courant_factor=Fr(99, 100), gradient_config=None, symmetry=(0, 0, 0)), "config")
+    try:
+        back = _roundtrip(ctx, it, {"config": cfg})
+        g2 = back["config"].attrs["grid"]
+        ok = isinstance(g2, Obj) and g2.cls is RG and all(isinstance(g2.attrs.get(n), NdArr) and all(to_rat(x).equals(to_rat(y)) for x, y in zip(g2.attrs[n].data, grid.attrs[n].data)) and g2.attrs[n].shape == grid.attrs[n].shape for n in ("x_edges", "y_edges", "z_edges"))
+        detail = "edges equal" if ok else {n: getattr(g2.attrs.get(n), "shape", None) for n in ("x_edges", "y_edges", "z_edges")}
+    except Raised as r:
+        ok, detail = False, str(r)[:160]
+    ctx.ob("R31.5", "round-trip[SimulationConfig with an explicit RectilinearGrid]", ok, "an explicit grid comes back with exactly its three edge arrays", detail, "edges equal")
+
+
+def _purity(ctx):
+    """export / import depend on their argument only: the module keeps no mutable state between calls."""
+    ix = ctx.index
+
+    def stateful(tree):
+        mutable = {}
+        for st in tree.body:
+            tgt = None
+            if isinstance(st, ast.Assign) and len(st.targets) == 1 and isinstance(st.targets[0], ast.Name):
+                tgt, val = st.targets[0].id, st.value
+            elif isinstance(st, ast.AnnAssign) and isinstance(st.target, ast.Name) and st.value is not None:
+                tgt, val = st.target.id, st.value
+            if tgt is None:
+                continue
+            if isinstance(val, (ast.Dict, ast.List, ast.Set, ast.ListComp, ast.DictComp, ast.SetComp)) or (isinstance(val, ast.Call) and ast.unparse(val.func).split(".")[-1] in ("dict", "list", "set", "defaultdict", "OrderedDict", "WeakValueDictionary", "WeakKeyDictionary")):
+                mutable[tgt] = st.lineno
+        hits = []
+        for fn in ast.walk(tree):
+            if isinstance(fn, (ast.FunctionDef, ast.AsyncFunctionDef)):
+                for n in ast.walk(fn):
+                    if isinstance(n, ast.Name) and n.id in mutable:
+                        hits.append((fn.name, n.id))
+                    if isinstance(n, ast.Global):
+                        hits += [(fn.name, g) for g in n.names]
+                    if isinstance(n, ast.Call) and ast.unparse(n.func).split(".")[-1] in ("lru_cache", "cache", "cached_property"):
+                        hits.append((fn.name, ast.unparse(n.func)))
+                for d in fn.decorator_list:
+                    if ast.unparse(d).split("(")[0].split(".")[-1] in ("lru_cache", "cache"):
+                        hits.append((fn.name, ast.unparse(d)))
+        return sorted(set(hits))
+
+    mi = ix.module(JSON)
+    hits = stateful(mi.tree)
+    probe = ast.parse("_C = {}\ndef f(o):\n    if o in _C:\n        return _C[o]\n    _C[o] = 1\n    return 1\n")
+    ctx.ob("R31.6", f"{JSON}:stateless", not hits and bool(stateful(probe)), "no function of the serialisation module reads or writes a module-level container, declares a global or memoises: what is written for an object depends on that object alone, not on what was exported before (objects compare equal by name only, so any cache keyed on them would hand out stale data)", hits, "no module-level mutable state")
+
+
 def run(ctx):
     _forms(ctx)
     _dtypes(ctx)
     _setup(ctx)
     _constructor_agreement(ctx)
-    ctx.require_count("C31", len(ctx.obligations), 22)
+    _arrays(ctx)
+    _purity(ctx)
+    ctx.require_count("C31", len(ctx.obligations), 25)
     ctx.trusted_base += [
         "json modelled by its specification (sort_keys sorts dict keys only; arrays keep order; tuples are written as arrays); importlib resolves a module by its dotted name",
         "str(<dtype class>) is \"<class 'jax.numpy.NAME'>\"",
         "place_objects is a deterministic function of (config, object_list, constraints)",
     ]
-    ctx.assume("objects are serialised before placement (private, non-init state is not part of a setup); numpy / jax arrays inside a setup (explicit grids) are not covered")
+    ctx.assume("objects are serialised before placement (private, non-init state is not part of a setup)")
